@@ -427,6 +427,9 @@ def run_property(pid: str, tier: str) -> int:
     }
     # VERIF_EVIDENCE_DIR: development only (runs against seeded changes must not overwrite the registered evidence)
     ev_dir = os.environ.get("VERIF_EVIDENCE_DIR") or os.path.join(VERIF, "evidence")
+    if only and not os.environ.get("VERIF_EVIDENCE_DIR"):
+        # a single-job development run must never replace the registered evidence of the full check
+        ev_dir = os.path.join("/tmp", "verif_partial_evidence")
     os.makedirs(ev_dir, exist_ok=True)
     with open(os.path.join(ev_dir, f"{pid}.json"), "w") as fh:
         json.dump(ev, fh, indent=1, default=str)
